@@ -38,6 +38,9 @@ def split_cases(lines, impl, model):
 
 
 def run_pair(exe, lines, env=None):
+    if env is None and os.environ.get("VERIF_TIER_NOW") == "thorough":
+        # sanitizer builds: the harness deliberately never destroys a network that reported an inconsistency
+        env = dict(os.environ, ASAN_OPTIONS="detect_leaks=0")
     return c07.model_first("net", exe, lines, env)
 
 
